@@ -57,6 +57,8 @@ impl Signal {
                     w.sig.pending = false;
                     w.sig.delivered += 1;
                     w.log_event("signal.recv", "");
+                    let at_ms = crate::clock::elapsed_ms();
+                    w.fs.log.push(crate::fs::FsEvent::Mark { at_ms });
                     Poll::Ready(Some(()))
                 } else {
                     w.sig.waker = Some(cx.waker().clone());
